@@ -191,6 +191,15 @@ func runOne(p *an.Prog, id, tier, verif, repo string, jobs, seed int, start time
 		sum.Print()
 		extra["selftest"] = sum
 		stCode = c
+		// … and a systematic mutation analysis of the functions that carry this property's
+		// obligations: how many single-point mutants the rule reports, and which ones it does not
+		// (measured coverage of the structural clauses; never part of the verdict)
+		if ms, err := selftest.Mutate(repo, id, jobs, 400, seed); err == nil {
+			fmt.Printf("  mutation analysis: %d functions, %d mutants: %d reported, %d not reported, %d not compiling\n", ms.Functions, ms.Generated, ms.Killed, ms.Survived, ms.Invalid)
+			extra["mutation_analysis"] = ms
+		} else {
+			extra["mutation_analysis"] = map[string]any{"error": err.Error()}
+		}
 	}
 	res := ctx.Finish(verif, start, seed, r.Explanation, append([]string{an.PureNote}, r.Assumptions...), extra)
 	if res.ExitCode == 0 && stCode != 0 {
